@@ -64,6 +64,9 @@ class WAPProtocol(HTTPProtocol):
     def getrenderstr(self, entry: GopherEntry, url: str) -> str:
         if url.startswith("/"):
             url = self.waptop + url
+        # URLs of remote and URL: entries carry text from link files and
+        # gophermaps: never let it end the attribute.
+        url = html.escape(url)
         retstr = ""
         if not entry.gettype() in ["i", "7"]:
             if self.accesskeyidx < len(accesskeys):
